@@ -14,6 +14,7 @@ mod kernels;
 mod lean;
 mod once;
 mod repr;
+mod reserve;
 mod world;
 
 use ctrl::{Rng, Strategy};
@@ -185,6 +186,9 @@ fn cmd_kernel(args: &Args, which: &str) -> J {
 
 fn main() {
     let args = Args::parse();
+    if let Some(g) = args.opts.get("gmodel") {
+        let _ = world::oracle_guard::GMODEL.set(g.clone());
+    }
     let out = match args.sub.as_str() {
         "kernel-ctx" => cmd_kernel(&args, "ctx"),
         "kernel-wait" => cmd_kernel(&args, "wait"),
@@ -197,6 +201,7 @@ fn main() {
         "reward" => components::cmd_reward(&args),
         "repr" => repr::cmd_repr(&args),
         "once" => once::cmd_once(&args),
+        "reserve" => reserve::cmd_reserve(&args),
         other => J::obj(vec![("error", J::Str(format!("unknown subcommand {other}")))]),
     };
     println!("{}", out.render());
